@@ -138,6 +138,36 @@ theorem solb_loop_progress_counterexample : decodeSolb 1 solbLoopFile = .error .
 theorem solb_alloc_bounded (n : Nat) (bs : Bytes) : scalarAlloc Cfg.fixed n bs ≤ (bs.length : Int) :=
   scalarAlloc_fixed_le n bs
 
+/-- a 60-byte version-4 .solb: `SolAtVertices` with 2^31-1 vertices and zero solution types -/
+def solbIdleFile : Bytes :=
+  [0x01,0,0,0, 0x04,0,0,0, 0x03,0,0,0, 0x18,0,0,0,0,0,0,0, 0x03,0,0,0,
+   0x3e,0,0,0, 0x30,0,0,0,0,0,0,0, 0xff,0xff,0xff,0x7f,0,0,0,0, 0,0,0,0,
+   0x36,0,0,0, 0,0,0,0,0,0,0,0]
+
+/-- reader as of ee7a30e (declared count checked against `count × ldim × 8` bytes only): with zero solution
+    types the stride is 0, every count up to INT_MAX passes, and the per-vertex loop runs 2^31-1 times
+    on a 60-byte file without reading anything (found by stream `c20_count`, thorough tier; repaired by
+    54a1e7c) -/
+theorem solb_idle_loop_counterexample :
+    solbIdleFile.length = 60 ∧
+    scalarIdleIterations { Cfg.fixed with checkFields := false } 1 solbIdleFile = 2147483647 := by
+  decide +kernel
+
+/-- FIXED .solb reader (as /repo runs now): the per-vertex loop never runs without data behind it (for a
+    section that declares no field it is skipped) ... -/
+theorem solb_idle_bounded (n : Nat) (bs : Bytes) : scalarIdleIterations Cfg.fixed n bs = 0 :=
+  scalarIdle_fixed_zero n bs
+
+/-- ... and when it runs (`ldim ≥ 1`) the declared count, i.e. the number of loop iterations, is at most
+    `file size / 8` -/
+theorem solb_loop_bounded (n : Nat) (bs : Bytes) (dim : Nat) (next nnode : Int) (ldim : Nat) (s : Bytes)
+    (hp : scalarPlan Cfg.fixed n bs = .ok (dim, next, nnode, ldim, s)) (hl : 0 < ldim) :
+    nnode * 8 ≤ (bs.length : Int) :=
+  scalarLoop_fixed_le hp hl
+
+/-- the zero-field file is still accepted (refine reads back what it writes for `ldim = 0`) -/
+example : decodeSolbFixed 1 solbIdleFile = .ok (0, [[]]) := by decide +kernel
+
 example : decodeSolbFixed 1 solbAllocFile = .error .failure ∧ decodeSolbFixed 1 solbLoopFile = .error .failure := by
   decide +kernel
 
